@@ -181,3 +181,30 @@ Fixpoint all_distinct (l : list Z) : bool :=
   match l with [] => true | x :: r => negb (existsb (Z.eqb x) r) && all_distinct r end.
 Theorem lut_keys_distinct : length lut_keys = 256%nat /\ all_distinct lut_keys = true.
 Proof. vm_compute. split; reflexivity. Qed.
+
+(* computeY: the returned y puts (x, y) on the curve  a x^2 + y^2 = 1 + d x^2 y^2, provided the
+   square root is sound and the denominator d x^2 - 1 is invertible *)
+Theorem compute_y_on_curve (x y : Fp) b :
+  dyadic_sound ->
+  AlgLaws.invertible fpo (zq_sub (zq_mul (zq_mul x x) bw_d) zq_one) ->
+  compute_y x b = Some y ->
+  zq_add (zq_mul bw_a (zq_mul x x)) (zq_mul y y) = zq_add zq_one (zq_mul (zq_mul bw_d (zq_mul x x)) (zq_mul y y)).
+Proof.
+  intros HD Hden. unfold compute_y.
+  set (den := zq_sub (zq_mul (zq_mul x x) bw_d) zq_one) in *.
+  set (num := zq_sub (zq_mul (zq_mul x x) bw_a) zq_one).
+  destruct (sqrt_precomp (zq_div num den)) as [s|] eqn:Es; [|discriminate].
+  pose proof (sqrt_precomp_sound _ _ HD Es) as Hs.
+  assert (Hy2 : forall y0, (y0 = s \/ y0 = zq_neg s) -> zq_mul (zq_mul y0 y0) den = num).
+  { intros y0 Hy0. assert (E : zq_mul y0 y0 = zq_mul s s) by (destruct Hy0 as [->| ->]; unfold Fp in *; ring).
+    rewrite E, Hs. unfold zq_div.
+    pose proof (AlgLaws.finv_r fpo fp_field_laws den Hden) as Hi. cbn [fmul f1 finv fpo] in Hi.
+    unfold Fp in *. transitivity (zq_mul num (zq_mul den (zq_inv den))); [ring|]. rewrite Hi. ring. }
+  intros H.
+  assert (Hy : y = s \/ y = zq_neg s).
+  { destruct (Bool.eqb b (zq_lex_largest s)); [left|right]; congruence. }
+  specialize (Hy2 y Hy). unfold num, den in Hy2. unfold Fp in *.
+  (* y^2 (d x^2 - 1) = a x^2 - 1  <->  curve equation *)
+  transitivity (zq_add (zq_add (zq_sub (zq_mul (zq_mul x x) bw_a) zq_one) zq_one) (zq_mul y y)); [ring|].
+  rewrite <- Hy2. ring.
+Qed.
